@@ -48,6 +48,9 @@ Proof. exact names_ok. Qed.
 
 Theorem C04_docs : docs_table = table_of_tt.
 Proof. exact docs_table_ok. Qed.
+(* ... and the Operation, Name and Formula cells of every row, read as Boolean functions, are the function of the row's id *)
+Theorem C04_docs_worded : map fst docs_worded = seq 0 16 /\ forallb worded_ok docs_worded = true.
+Proof. exact docs_worded_ok. Qed.
 
 Theorem C04_comment : comment_table = table_of_tt.
 Proof. exact comment_table_ok. Qed.
@@ -66,4 +69,5 @@ Eval compute in "PA:C04_c_template_words". Print Assumptions C04_c_template_word
 Eval compute in "PA:C04_casts". Print Assumptions C04_casts.
 Eval compute in "PA:C04_names". Print Assumptions C04_names.
 Eval compute in "PA:C04_docs". Print Assumptions C04_docs.
+Eval compute in "PA:C04_docs_worded". Print Assumptions C04_docs_worded.
 Eval compute in "PA:C04_comment". Print Assumptions C04_comment.
